@@ -115,8 +115,16 @@ def task(W, payload):
             if j - i >= 2:
                 seg = ops1[i:j]; r.shuffle(seg); ops1[i:j] = seg
             i = max(j, i + 1)
+        # every second time the two presentations SHARE their Stratification objects (scenario models built from common building blocks do):
+        # the strata order is then kept, and age stratifications and stratifications carrying a mixing matrix (both validated against the compartment ORDER) are not shared
+        share_mode = r.random() < 0.5
+        if share_mode:
+            bump(out, "perm:shared_stratification_objects")
+            for i_, (o0, o1) in enumerate(zip(ops, ops1)):
+                if o0["op"] == "stratify" and not o0.get("mixing") and o0["kind"] != "age":
+                    o0["share"] = o1["share"] = f"c15:{payload['seed']}:{payload['index']}:{i_}"
         for op in ops1:
-            if op["op"] == "stratify" and op["kind"] != "age" and len(op["strata"]) >= 2:
+            if op["op"] == "stratify" and op["kind"] != "age" and len(op["strata"]) >= 2 and not share_mode:
                 idx = list(range(len(op["strata"]))); r.shuffle(idx)
                 op["strata"] = [op["strata"][k] for k in idx]
                 if op.get("mixing"):
@@ -234,7 +242,11 @@ def task(W, payload):
         if mentions(B, A["name"]) or mentions(A, B["name"]) or has_ovr(A) or has_ovr(B) or "age" in (A["kind"], B["kind"]):
             bump(out, "not_independent"); return out
         ops1[a], ops1[b] = copy.deepcopy(B), copy.deepcopy(A)
+    import interp as interp_mod
+    shared_keys = [op["share"] for op in ops if op.get("share")]
+    for k_ in shared_keys: interp_mod.SHARED_STRATS.pop(k_, None)
     I0 = build(ops); I1 = build(ops1)
+    for k_ in shared_keys: interp_mod.SHARED_STRATS.pop(k_, None)
     if I0 is None or I1 is None:
         if (I0 is None) != (I1 is None) and variant in ("perm", "rename", "shift", "scale"):
             fail(out, f"{variant}: one presentation of the model is accepted and the other rejected", "c15", payload, program=ops, variant_program=ops1)
